@@ -188,6 +188,15 @@ pub fn type_tags(r: &Ref, ty: &str) -> BTreeSet<String> {
                     }
                     FK::Payload { modifier, .. } => {
                         tags.insert("payload".into());
+                        // a payload without size field that is not the last thing of its level, next to another
+                        // variable-length field of the same level
+                        let pos = level.fields.iter().position(|g| std::ptr::eq(g, f)).unwrap_or(0);
+                        let sized = level.fields.iter().any(|g| matches!(&g.k, FK::Size { target, .. } if target.starts_with('_')));
+                        let followed = level.fields[pos + 1..].iter().any(|g| g.bits().map(|w| w > 0).unwrap_or(true));
+                        let other_dyn = level.fields.iter().any(|g| !std::ptr::eq(g, f) && !matches!(g.k, FK::Padding { .. }) && r.field_static_bits(g).is_none());
+                        if !sized && followed && other_dyn {
+                            tags.insert("payload.unsized-followed-with-other-dynamic-field".into());
+                        }
                         if *modifier > 0 {
                             tags.insert("payload.modifier".into());
                         }
